@@ -125,7 +125,7 @@ def gen_plan(prop, run_seed, tier):
                     batch=s.random() < 0.4, policy=policy, poison=f.choice(POISONS), poison_seed=f.randrange(2**31),
                     entropy=s.randrange(2**31), order_seed=s.randrange(2**31),
                     failstop=f.choice(["masked-row", "negative", "nan", "cli-negative", "cli-nan"]),
-                    second_round=s.random() < 0.3,
+                    second_round=s.random() < 0.3, train_fault=(f.random() if f.random() < 0.3 else None),
                     # documented non-default model options (in-process rounds only; the CLI takes required arguments only)
                     model_opts=dict(mult_gamma_proc=s.random() < 0.7, local_shrinkage=s.random() < 0.7,
                                     **(dict(fake_intercept=s.random() < 0.6, individual_eff=s.random() < 0.7) if model == "sdc" else {})))
@@ -137,8 +137,10 @@ def gen_plan(prop, run_seed, tier):
     ops = []
     for _ in range(5):
         k = s.choice(kinds)
-        ops.append(dict(kind=k, seed=s.randrange(2**31), wseed=w.randrange(2**31), eA=s.randrange(2**31), eB=s.randrange(2**31),
-                        draws=s.choice([0, 1, 5, 50]), advance=s.choice([0, 0, 3])))
+        ops.append(dict(kind=k, seed=s.choice([s.randrange(2**31), s.randrange(2**31), 0, 1, 12]), wseed=w.randrange(2**31),
+                        eA=s.randrange(2**31), eB=s.randrange(2**31),
+                        draws=s.choice([0, 1, 5, 50]), advance=s.choice([0, 0, 3]),
+                        fault_u=(s.random() if s.random() < 0.6 else None)))
     return dict(engine="twinsim", prop=prop, steps=ops, fresh_twin=(s.random() < (0.3 if tier == "quick" else 0.25)), fresh_all=(tier == "thorough"))
 
 
@@ -228,16 +230,40 @@ def _round(plan, scratch, spath, tag, log, stats):
     cap = TrainCapture()
     tfiles = []
     with cap:
-        for ci in chain_order:
+        for pos, ci in enumerate(chain_order):
             p = scratch.file(f"{tag}_thetas_{ci}.h5")
-            pipe.p_train(spath, p, model=MODEL_NAME[plan["model"]], model_params={"n_embedding_dimensions": plan["D"]},
-                         n_chains=plan["n_chains"], chain_index=ci, n_samples=plan["n_samples"], n_burnin=plan["burnin"],
-                         thin=plan["thin"], seed=plan["seed"], entropy=h64(plan["entropy"], "train", ci))
+
+            def train():
+                pipe.p_train(spath, p, model=MODEL_NAME[plan["model"]], model_params={"n_embedding_dimensions": plan["D"]},
+                             n_chains=plan["n_chains"], chain_index=ci, n_samples=plan["n_samples"], n_burnin=plan["burnin"],
+                             thin=plan["thin"], seed=plan["seed"], entropy=h64(plan["entropy"], "train", ci))
+
+            tf = plan.get("train_fault")
+            if tf is not None and pos == 0:
+                # fault transient.model.step: one Gibbs step of this training process fails (a failed Cholesky).  The
+                # process may die -- the operator then runs the step again -- or cope; whatever reaches sampling must
+                # still be each observed experiment exactly once (judged below on every captured hand-over)
+                n_steps = plan["burnin"] + plan["n_samples"] * plan["thin"]
+                fpts = launch.FaultPoints({"model.step": 1 + int(tf * n_steps) % max(1, n_steps)})
+                try:
+                    with fpts:
+                        train()
+                except pipe.HarnessError:
+                    raise
+                except Exception:
+                    if not fpts.fired:
+                        raise
+                    stats.probe("train_died_on_transient_fault")
+                    train()
+                if fpts.fired:
+                    stats.fault("transient.model.step")
+            else:
+                train()
             tfiles.append(p)
             stats.steps += 1
             out.append((f"theta:{ci}", pipe.holder_file_digest(p)))
     for k, r in enumerate(cap.records):
-        out.append((f"training-arrays:{chain_order[k]}", digest(r)))
+        out.append((f"training-arrays:{k}", digest(r)))
     dorder = list(range(plan["dist_chunks"]))
     rnd.shuffle(dorder)
     dfiles = []
@@ -886,7 +912,7 @@ def _safe_screen_digest(path):
         return ("unloadable", type(e).__name__, os.path.getsize(path) > 0)
 
 
-def _twin(op, scratch, entropy, draws, seed_override=None):
+def _twin(op, scratch, entropy, draws, seed_override=None, faults=None):
     launch.set_entropy(entropy)
     for _ in range(draws):
         np.random.random()
@@ -895,8 +921,9 @@ def _twin(op, scratch, entropy, draws, seed_override=None):
     t0 = launch.SIM_THREADS["tasks"]
     _preimport(op)  # module import (torch, h5py, tqdm's monitor thread ...) is not part of the operation
     # ... and its own wall clock, process id and directory listing order
-    with launch.SimEnv(entropy) as env, Tripwires() as tw:
+    with launch.SimEnv(entropy) as env, Tripwires() as tw, (faults or launch.FaultPoints()) as fp:
         out = _run_op(op, scratch, seed_override=seed_override)
+    _twin.last_fault_census = dict(fp.seen)
     g1 = launch.global_state_digest()
     sites = set(tw.sites)
     for what, n in sorted(env.reads.items()):
@@ -988,6 +1015,32 @@ def _c18(plan, scratch, log, stats, violation):
             raise
         except Exception as e:
             violation("C18.twin-output", f"{label}|fresh-state-raised:{type(e).__name__}", f"{label}: raised {e!r} in a fresh module state")
+        # ... and a transient fault inside the step (an HDF5 open that fails once, a Gibbs step whose Cholesky fails) may
+        # make it fail, but a step that reports success must have produced what the undisturbed step produces
+        census = getattr(_twin, "last_fault_census", {})
+        kinds_f = sorted(k for k in ("h5.open", "model.step") if census.get(k))
+        if kinds_f and op.get("fault_u") is not None:
+            kf = kinds_f[int(op["fault_u"] * 7919) % len(kinds_f)]
+            at = 1 + int(op["fault_u"] * census[kf]) % census[kf]
+            _purge_batchie_modules()
+            fpts = launch.FaultPoints({kf: at})
+            try:
+                outT, _, _ = _twin(op, scratch, op["eA"], 0, faults=fpts)
+            except pipe.HarnessError:
+                raise
+            except BaseException as e:  # noqa: BLE001 - the step failed: allowed
+                if isinstance(e, (KeyboardInterrupt, SystemExit, MemoryError)) and not fpts.fired:
+                    raise
+                outT = None
+                stats.probe("transient_fault_propagated:" + kf)
+            if fpts.fired:
+                stats.fault("transient." + kf)
+                stats.oracle_evals += 1
+                log.ev("transient", i, label, kf, at, outT is None, outT == outA)
+                if outT is not None and outT != outA:
+                    violation("C18.transient-fault-changes-output", f"{label}|{kf}",
+                              f"{label}: the step reported success after a transient fault ({kf}, occurrence {at} of {census[kf]}) "
+                              f"but its output differs from the undisturbed step with the same inputs and seed {op['seed']}")
         # non-triviality: does the operation consume its generator at all?
         if outP is not None and outP != outA:
             stats.key(label, op.get("advance", 0) > 0)
